@@ -101,6 +101,13 @@ CLAIMED = {
          "idempotent, constant on rotation classes. Haralick formulas, Zernike invariances, LBP histograms and moments are compared "
          "with independent evaluations of the definitions / the extracted models on the fresh build",
          "Rocq proof + finite sweep + differential correspondence"),
+ "C08": ("proof", "Coq theorems about the shared array layer (numpypp/array.hpp model): operator++ of the stride-aware iterator keeps "
+         "pointer = base + <position, strides> for arbitrary strides and visits positions in C order; at_flat addresses the element "
+         "with the given C-order index; flat<->position maps are mutually inverse. All kernel theorems (C01-C07, C13-C19) are stated "
+         "on logical arrays, hence layout- and heap-independent by construction. The implementation is swept (support): every "
+         "registry function x every array argument x 7 layouts x 3 heap perturbations in isolated workers, results compared and "
+         "arguments checked for purity",
+         "Rocq proof (array layer) + metamorphic API sweep in isolated processes"),
 }
 NOT_YET = "check not built yet in this round (see DESIGN.md section 8 for the plan)"
 ALL = ["C%02d" % i for i in range(1, 21)]
